@@ -68,7 +68,8 @@ class C05(Property):
         'conjunction of its checks is tied by correspondence only',
         'Substance.__init__ (charge keyword merged into composition[0], empty composition kept as {} and not turned into None) is not '
         'modelled: correspondence/oracle only (cases with charge_kw and explicitly empty compositions)',
-        'odesys.linear_invariants / linear_invariant_names equal composition_balance_vectors(): correspondence only',
+        'odesys.linear_invariants / linear_invariant_names equal composition_balance_vectors(): correspondence only; that the GENERATED '
+        'expressions conserve those vectors is theorem generated_rhs_conserves over C04 s buildRhs (no CSTR); the compiled f_cb is oracle only',
         'the matrix handed to the analytic solver is the rref of the composition vectors (sympy, delegated): correspondence only',
         'decimal (float) composition amounts: the exact model is compared with the float implementation (accepted iff exactly balanced) '
         'outside the open finding check_balance:float-roundoff-decimal-compositions; no theorem about float arithmetic',
